@@ -119,12 +119,17 @@ CLAIMED["C02"] = dict(
          "condition holds and none was raised before; an earlier panic is never dropped or overwritten) and mux_panic refines "
          "if-then-else (code on the path not taken contributes nothing). The model of the record operations is tied to circuit.rs "
          "by exact structural correspondence through the verif_hooks wrapper on random compile.rs-shaped operation sequences, and "
-         "the real circuits are evaluated on ALL inputs against the abstract state. PARTIAL: the program-level statement (source "
-         "semantics of whole programs vs the compiled circuit) is not yet a theorem.",
+         "the real circuits are evaluated on ALL inputs against the abstract state. Program level: C02_program (Props/C02.lean) - "
+         "for every program of the fragment of Model/BitSem.lean (all expression and statement forms except for-join, constants, "
+         "multiplication by a negative literal), every input and enough fuel, the panic state of the compiled code is empty iff "
+         "the source execution returns a value and names reason k iff the source execution fails with k, the first failing "
+         "operation in evaluation order (untaken branches, unselected arms, short-circuited operands are compiled in the model "
+         "and contribute nothing). PARTIAL: source locations are not part of the program-level model (the builder-level theorems "
+         "cover the location bits); outside the fragment the program-level statement is explored on generated programs.",
     design_ref="DESIGN.md §6 C02",
     note="trusted: as C04 (same builder model/correspondence); Model/Builder.lean panic section models circuit.rs:646-758 AFTER the "
          "repair 4447ea8 (the unrepaired code violates the property: see known_findings.json)",
-    technique="Lean 4 proof (refinement of the abstract panic state with a cache invariant) + structural correspondence",
+    technique="Lean 4 proof (refinement of the abstract panic state with a cache invariant; program-level refinement of the compiler model) + structural correspondence",
 )
 
 CLAIMED["C11"] = dict(
